@@ -135,7 +135,12 @@ def r01_3(cx):
             ft = 'nfa::noncontiguous::NFA::follow_transition(self.nfa, %s, %s)' % (p0k, T.BYTE)
             if cstr(N) == ft:
                 conds = [(cstr(c), v) for c, v in r.conds]
-                okc = any(('%s' % ft) in k and 'NFA::FAIL' in k and ((('PartialEq::ne' in k or k.startswith('Ne(')) and v is True) or (('PartialEq::eq' in k or k.startswith('Eq(')) and v is False)) for k, v in conds)
+                _FACTS[0] = cx.facts
+                okc = False
+                for c0, v0 in r.conds:
+                    e0 = _c_eq(c0)
+                    if e0 is not None and {cstr(e0[0]), cstr(e0[1])} == {ft, 'nfa::noncontiguous::NFA::FAIL'} and ((e0[2] and v0 is False) or (not e0[2] and v0 is True)):
+                        okc = True
                 if not okc or grow:
                     why_adv = 'the walk follows an existing transition without it being != FAIL (or still grows the trie)'
             else:
